@@ -284,6 +284,33 @@ def ItemsWFS (WFin : NsScope → Facts → Hd → List (Item Unit) → Prop) (sc
       TreeWFS WFin sch sc n ∧ ItemsWFS WFin sch sc f r
 end
 
+/-- the scoped recursion with a constant family is the plain one (documents without inner declarations, or
+    `process_namespaces=False`: one mapper for the whole document) -/
+theorem encTreeS_const (c : Conv) (x : J → List (String × String)) (sch : Nat → Option Facts) :
+    ∀ (fuel : Nat) (sc : NsScope) (f : Facts) (nm : String) (v : J),
+      encTreeS ⟨fun _ => c, x⟩ sch fuel sc f nm v = encTree c sch fuel f nm v := by
+  intro fuel
+  induction fuel with
+  | zero => intros; rfl
+  | succ k ih =>
+    intro sc f nm v
+    have hrec : encTreeS ⟨fun _ => c, x⟩ sch k (sc.push (x v)) = encTree c sch k := by
+      funext f nm v; exact ih _ f nm v
+    simp only [encTreeS, encTree, hrec]
+
+mutual
+theorem decTreeS_const (c : Conv) (x : J → List (String × String)) :
+    ∀ (n : Node) (sc : NsScope), decTreeS ⟨fun _ => c, x⟩ sc n = decTree c n
+  | .mk f hd items, sc => by
+    simp only [decTreeS, decTree, decItemsS_const c x items]
+theorem decItemsS_const (c : Conv) (x : J → List (String × String)) :
+    ∀ (items : Items) (sc : NsScope), decItemsS ⟨fun _ => c, x⟩ sc items = decItems c items
+  | .nil, _ => rfl
+  | .cdata i v r, sc => by simp only [decItemsS, decItems, decItemsS_const c x r]
+  | .child nm s n r, sc => by
+    simp only [decItemsS, decItems, decTreeS_const c x n, decItemsS_const c x r]
+end
+
 theorem decItemsS_eq (c : SConv) (sc : NsScope) :
     ∀ items : Items, decItemsS c sc items = mapIt (decTreeS c sc) items.toList
   | .nil => by simp [decItemsS, Items.toList, mapIt]
